@@ -13,6 +13,12 @@ CHECKS = {
    note="The reference is HarfBuzz 6.0.0 while the port follows a later upstream: agreement is claimed on D only, where go-text == 6.0.0 on the whole enumeration of the unchanged tree; rules R7, R9, R11, R12 are unresolved classes (version drift or port defect could not be told apart in the sandbox). Built as a cgo variant of the check binary; setup fails loudly if it cannot link.",
    technique="bounded exhaustive differential enumeration against a live reference implementation (E1)",
    design="1/C05", engine="E1 enum"),
+ "C10": dict(
+   level="exploration",
+   text="Every face of the 738 corpus files x every glyph id (quick: at most 2000 per face of files over 1 MB) x {default instance, all-min, all-max, outside the axis range, interior point, per-axis min/max/60% points}: Upem, every rune of the character map (NominalGlyph), horizontal/vertical advances, GlyphExtents, normalised coordinates and the outline segments of GlyphData (glyf incl. gvar, CFF, CFF2 incl. blend) compared with the font functions and draw callbacks of the system libharfbuzz 6.0.0 (cgo); and at the default instance units-per-em, advances and TrueType/CFF outlines compared with golang.org/x/image/font/sfnt at ppem = upem.",
+   note="Tolerances and domain rules (DESIGN.md C10): extents of variable instances +-1 unit (rounding of the far edge changed between HarfBuzz releases); x/image rounds transformed component points to whole units (tolerance max(4, upem/128) units for glyf, 8 units for CFF) and overflows its 32-bit fixed point for |coordinate| x ppem >= 2^31 (skipped, counted); the glyf outline is shifted by lsb - xMin like HarfBuzz/FreeType (accepted against x/image only when it lands on the XBearing of GlyphExtents or equals the libharfbuzz drawing); faces with both glyf and CFF, bitmap/colour/SVG glyph data are not compared for extents/outlines. Built as the cgo variant of the check binary.",
+   technique="bounded exhaustive differential enumeration (every glyph of every corpus face x corner design coordinates) against two live reference decoders (E1)",
+   design="1/C10", engine="E1 enum"),
  "C01": dict(
    level="exploration",
    text="Every corpus face (752) x every string up to the tier's length over its font-derived alphabet and the script packs it covers x {6 directions, every sub-run with context, out-of-contract bounds, 8 script tags, sizes, features, language} through shaping.Shape and x {7 flag values x 3 cluster levels x 2 directions} through harfbuzz.Buffer.Shape; totality (panic, hang, memory attributed to the journalled case), output budget, reported range, cluster membership/monotonicity/count laws.",
